@@ -207,10 +207,11 @@ UNIT = {
  'native': {'tests': [
     {'name': 'write_save_reload_end_to_end', 'code': '../xrefchain/e2e_docs_bounded.rs', 'place': 'pdf/tests/verif_e2e_c09.rs', 'filter': 'c09_',
      'fn': 'Storage::save', 'props': ['C09'], 'tier': 'quick', 'timeout': 900,
-     'bound': 'sequences of 1..=3 operations over atoms {create(v), update(existing id k, v) for k in two in-use ids, update(id held by an object stream, v), promise then fulfill(v)} x v in {integer -77, string with CR / CR LF / "(", name "A#B c/d", dictionary with a "#" key holding [null 1 0 R], stream with /Filter /ASCIIHexDecode}: all single atoms, a fixed 1/5 (generated files) or all (corpus) of the ordered pairs, every 97th / 41st triple; one save or two saves in a row with a create in between; on generated files (hand-written bytes, no crate writer): base body of 6 objects (catalog, page tree, page, content stream, integer, string) + 0..=2 incremental updates of kind {Redef 3 4 5 6 | Free5 (free entry gen 1) + 6 | Reuse5 (gen 1, after Free5) | AddGap (new 9, 11; 7, 8, 10 undefined) | Pack (5, 6 inside a new object stream, xref-stream sections only)}: all 18 well-formed kind sequences; every section in one of 3 formats {classic | xref stream /W [1 2 1] one /Index run per entry | /W [1 3 2] maximal runs} (+ base variants objects 5, 6 in an object stream, /Index omitted) without the files that have undefined numbers (candidate finding units/updater/findings/save_fails_on_undefined_entries.md): 450 files, each with 1/16 of the sequences (all files together: every sequence many times), about 3000 runs; on files/example.pdf (classic table) and files/xelatex.pdf (xref stream, compressed objects): 967 runs. Excluded as recorded: two dictionary-valued updates of ONE id in a sequence (known finding DEV_UPDATE_MERGES_DICT). Not covered: a save that fails and is retried, encrypted files, updates that re-serialise an in-file stream.',
+     'bound': 'sequences of 1..=3 operations over atoms {create(v), update(existing id k, v) for k in two in-use ids, update(id held by an object stream, v), promise then fulfill(v)} x v in {integer -77, string with CR / CR LF / "(", name "A#B c/d", dictionary with a "#" key holding [null 1 0 R], stream with /Filter /ASCIIHexDecode}: all single atoms, a fixed 1/5 (generated files) or all (corpus) of the ordered pairs, every 97th / 41st triple; one save or two saves in a row with a create in between; on generated files (hand-written bytes, no crate writer): base body of 6 objects (catalog, page tree, page, content stream, integer, string) + 0..=2 incremental updates of kind {Redef 3 4 5 6 | Free5 (free entry gen 1) + 6 | Reuse5 (gen 1, after Free5) | AddGap (new 9, 11; 7, 8, 10 undefined) | Pack (5, 6 inside a new object stream, xref-stream sections only)}: all 18 well-formed kind sequences; every section in one of 3 formats {classic | xref stream /W [1 2 1] one /Index run per entry | /W [1 3 2] maximal runs} (+ base variants objects 5, 6 in an object stream, /Index omitted) without the files that have undefined numbers (candidate finding units/updater/findings/save_fails_on_undefined_entries.md): 348 of the 654 files (74 of them with a compressed target), each with 1/16 of the sequences (all files together: every sequence many times), 3956 runs; on files/example.pdf (classic table) and files/xelatex.pdf (xref stream, compressed objects): 967 runs. Excluded as recorded: two dictionary-valued updates of ONE id in a sequence (known finding DEV_UPDATE_MERGES_DICT). Retry clause: on each of the 348 files and 25 value pairs on each corpus file (398 runs): update, promise left open, save (must fail), fulfill, save, reload. Not covered: encrypted files, updates that re-serialise an in-file stream; a create that FAILS (candidate finding units/updater/findings/failed_create_blocks_save.md).',
      'contract': 'every create / update / fulfill succeeds; update and fulfill hand back the very id given, create an id not in use; before any save and after each '
                  'save every written id reads, through the same open Storage, as the last value written; each save succeeds and its output starts with the previous '
                  'revision; reloading the bytes of every save (FileOptions::load): each written id resolves to the last value written (streams: /Filter, raw and decoded '
-                 'data), every untouched object number 0 ..= /Size + 2 resolves as before (stream data included), same page count; nothing panics.'},
+                 'data), every untouched object number 0 ..= /Size + 2 resolves as before (stream data included), same page count; a save that failed because of an open '
+                 'promise succeeds after the promise is fulfilled, with the same reload guarantees; nothing panics.'},
  ]},
 }
